@@ -132,6 +132,12 @@ namespace sim
             s += ts[ r.below( sizeof( ts ) / sizeof( ts[ 0 ] ) ) ];
          }
       }
+      else if( prog == 11 ) {
+         static const char* ts[] = { "<ab.cd>", "<ab!1>", "<ab!x>", "<!>", "<>", "#<ab>", "#<a!x.>", "#<.!>", "?<ab!x>", "?<ab>", "$<a!x>", "$<ab1>", "^<x!y>", "^<xy>", "ab", " ", "<ab", "<a<b>", "#<ab1>", "<a1>" };
+         for( unsigned i = r.range( 1, 5 ); i > 0; --i ) {
+            s += ts[ r.below( sizeof( ts ) / sizeof( ts[ 0 ] ) ) ];
+         }
+      }
       else if( prog == 8 ) {
          static const char* bodies[] = { "ab", "12", "a1.b", "!", "..", "x9!y", "", "ab?12", "ab?x", "?7", "a.?", "7a7", "ab#", "#", "1.#x" };
          static const char* open[] = { "(", "[", "{", "<", "|", "/", "@", "$(", "$[", "$/", "~" };
